@@ -83,7 +83,48 @@ def nt_c06(tr):
     return bool(failed) and (has(tr, 5) or has(tr, 22) or has(tr, 31))
 
 
+def nt_c17(tr):
+    # a join / consume that returned, on an actor that handled something, plus a second join or a failure
+    joins = [e for e in tr if e[0] == 5 and e[4] in (8, 9)]
+    return len(joins) >= 1 and has(tr, 8) and (len(joins) >= 2 or has(tr, 14, lambda e: e[2] != 0) or has(tr, 13, lambda e: e[3] != 0))
+
+
+def nt_c07(tr):
+    # a restart request was taken out of the mailbox of an actor that had messages or timers around it
+    return has(tr, 7, lambda e: e[2] == 2) and (has(tr, 22) or sum(1 for e in tr if e[0] == 8) >= 2)
+
+
+def nt_c10(tr):
+    # a timer fired at least twice, or the actor ended while a timer was still registered
+    ticks = sum(1 for e in tr if e[0] in (23, 24))
+    return has(tr, 22) and (ticks >= 2 or has(tr, 18))
+
+
 PROPS = {
+    "C07": {
+        "families": [("restart", 1000, 25000), ("timers", 400, 10000), ("lifecycle", 200, 6000)],
+        "monitors": ["C03"],
+        "theorems": ["C07_restart_keeps_identity_and_mailbox", "C07_restart_yields_fresh_incarnation", "C07_cut_timers_never_fire", "C07_restart_callbacks"],
+        "nontrivial": nt_c07,
+        "rule": "cases generated from (family, VERIF_SEED, index): any number of Addr::restart and Context::restart requests at random positions among messages, strategies default / recreate-from-default / non-restartable, timers of all four kinds registered in started and in handlers, both mailbox kinds, started failing on a later incarnation; non-trivial = a restart request was processed on an actor with timers or several handled messages; distinct = distinct case JSON",
+        "assumptions": ["ticks already queued when the restart is processed are accepted messages and stay (they are handled by the new incarnation in order)"],
+    },
+    "C10": {
+        "families": [("timers", 900, 25000), ("restart", 300, 8000), ("mailbox", 200, 6000), ("faults", 200, 6000)],
+        "monitors": [],
+        "theorems": ["C10_not_early", "C10_sleep_is_a_full_period", "C10_timers_die_with_the_actor", "C10_none_after_death"],
+        "nontrivial": nt_c10,
+        "rule": "cases generated from (family, VERIF_SEED, index): 0-4 timers of mixed kinds (interval, interval_with, delayed_send, delayed_exec) with periods 1..50 virtual ms, both mailbox kinds, termination at any virtual time by any cause, expiries racing with runnable tasks on the virtual clock; non-trivial = a timer fired at least twice or the actor ended while a timer task existed; distinct = distinct case JSON",
+        "assumptions": ["'delivery' of a tick = the timer submitting its message (handling of ticks queued behind a slow handler is bunched by necessity)", "exact tick counts on an idle actor are checked by the search acceptor (interval timers fire at exactly registration + k*period on the virtual clock) and by the model's progress check at clock events, not by a theorem"],
+    },
+    "C17": {
+        "families": [("owning", 1200, 30000), ("faults", 200, 6000)],
+        "monitors": [],
+        "theorems": ["C17_value_is_exit_value", "C17_exit_value_is_final_state", "C17_second_join_gets_none", "C17_first_join_takes_handle"],
+        "nontrivial": nt_c17,
+        "rule": "cases generated from (family, VERIF_SEED, index): submissions through the owning address and derived handles, join futures created / awaited / dropped, consume, detach at random positions, repeated joins, every termination cause; non-trivial = a join or consume was issued on an actor that handled messages, and there was a second join or a failure; distinct = distinct case JSON",
+        "assumptions": ["join futures are awaited to completion once polled (a pending join future that is dropped and a second join polled while the first is pending are outside the generated programs: finding F6)"],
+    },
     "C06": {
         "families": [("faults", 1200, 30000), ("children", 400, 10000)],
         "monitors": ["C03", "C14"],
@@ -168,6 +209,28 @@ COMMON_NOTE = ("Trusted: Coq kernel; the hand-written model's fidelity (checked 
                "No axioms. Real-thread races inside external crates and real wake-ups beyond the sampled cases are outside.")
 
 MANIFEST_TEXT = {
+    "C07": {
+        "text": "Theorems (Coq): C07_restart_keeps_identity_and_mailbox and C07_restart_yields_fresh_incarnation (one-step, every state: processing a restart removes only the request, keeps queue, reference counts and handles; the end of the restart's stopped() aborts every timer, resets the state exactly for recreate-from-default), "
+                "C07_cut_timers_never_fire (for every continuation of any length: an aborted timer never fires again), C07_restart_callbacks (lifecycle automaton: stopped then started, failed started = failed end). Correspondence on the restart family; search acceptor for ticks after a restart and state carry-over.",
+        "note": COMMON_NOTE,
+        "technique": "Rocq/Coq proof (one-step theorems + invariant over all continuations + simulation) over an executable model; correspondence by differential run of model and implementation",
+        "design_ref": "DESIGN.md section 6 C07",
+    },
+    "C10": {
+        "text": "Theorems (Coq): C10_not_early, C10_sleep_is_a_full_period (one-step, every state), C10_timers_die_with_the_actor (every way the task ends aborts every timer), C10_none_after_death (for every continuation: an aborted timer never fires). "
+                "[partial] exact tick counts on an idle actor, 'never keeps the actor alive' and 'no timer task is leaked' are enforced by model rules (progress check at clock events; reference counts; timer end events) and validated by correspondence and the search acceptor.",
+        "note": COMMON_NOTE,
+        "technique": "Rocq/Coq proof (one-step theorems + invariant over all continuations) over an executable model with a virtual clock; correspondence by differential run of model and implementation",
+        "design_ref": "DESIGN.md section 6 C10",
+    },
+    "C17": {
+        "text": "Theorems (Coq, one-step, for every state): C17_value_is_exit_value (a join returns Some v only when the actor's exit value is Ok v), C17_exit_value_is_final_state (the exit value is the user state when the task returns from the phase after the final stopped(); a failed end records no value), "
+                "C17_first_join_takes_handle / C17_second_join_gets_none (the value is handed out once). That the implementation's join values equal the model's is the correspondence check on the owning family; the search acceptor checks value = fold of handled messages, once, after the task ended. "
+                "[partial] stated as one-step theorems about the model, not as one trace theorem.",
+        "note": COMMON_NOTE,
+        "technique": "Rocq/Coq proof (one-step theorems over all states) over an executable model; correspondence by differential run of model and implementation",
+        "design_ref": "DESIGN.md section 6 C17",
+    },
     "C06": {
         "text": "Theorem C06_containment (Coq, for every state and every way a task can end): the end of an actor's task closes and empties its mailbox with nobody left parked, resolves its notifier (never with the actor value on a failure), aborts all its timers, "
                 "removes all child handles it held, and leaves every other actor's loop state, mailbox and timers untouched; C06_dead_is_silent and C06_seen_as_stopped (corollaries of the C03 / C14 simulations). "
